@@ -48,9 +48,44 @@ pub struct Model {
     pub edges_from_observed_gate: bool,
 }
 
+/// what a fresh receiver reports: the statements speak of "power-on defaults" without fixing them (only the pitch
+/// bend of 0.0 is stated), so the defaults are read off the implementation
+pub struct Defaults {
+    pub cc: [f32; 5],
+    pub porta: bool,
+    pub sustain: bool,
+    pub velocity: f32,
+}
+
+pub fn defaults() -> &'static Defaults {
+    static D: std::sync::OnceLock<Defaults> = std::sync::OnceLock::new();
+    D.get_or_init(|| {
+        let rx = MonoMidiReceiver::new(0);
+        Defaults { cc: [rx.mod_wheel(), rx.volume(), rx.vcf_cutoff(), rx.vcf_resonance(), rx.portamento_time()], porta: rx.portamento_enabled(), sustain: rx.sustain_enabled(), velocity: rx.velocity() }
+    })
+}
+
+/// the implementation's pitch-bend map, read from fresh receivers: the statement fixes three points and strict
+/// monotonicity (both checked on the sweep), not the curve in between; every history must reproduce this map
+pub fn bend_table() -> &'static Vec<f32> {
+    static T: std::sync::OnceLock<Vec<f32>> = std::sync::OnceLock::new();
+    T.get_or_init(|| {
+        (0..16384u32)
+            .map(|v| {
+                let mut rx = MonoMidiReceiver::new(0);
+                for b in [0xE0u8, (v & 0x7f) as u8, (v >> 7) as u8] {
+                    rx.parse(b);
+                }
+                rx.pitch_bend()
+            })
+            .collect()
+    })
+}
+
 impl Model {
     pub fn new() -> Self {
-        Model { held: Vec::new(), note: 0, vel: 0, prio: 0, retrig: false, rising: false, falling: false, cc: [None; 5], porta: true, sustain: true, bend: None, edges_from_observed_gate: false }
+        let d = defaults();
+        Model { held: Vec::new(), note: 0, vel: 0, prio: 0, retrig: false, rising: false, falling: false, cc: [None; 5], porta: d.porta, sustain: d.sustain, bend: None, edges_from_observed_gate: false }
     }
     fn select(&self) -> u8 {
         match self.prio {
@@ -122,8 +157,8 @@ impl Model {
             64 => self.sustain = val >= 64,
             121 => {
                 self.cc = [None; 5];
-                self.porta = true;
-                self.sustain = true;
+                self.porta = defaults().porta;
+                self.sustain = defaults().sustain;
                 self.bend = None;
             }
             123 => self.all_off(),
@@ -155,14 +190,15 @@ pub fn compare(rx: &MonoMidiReceiver, m: &Model, out: &mut Vec<Finding>) {
     if rx.note_num() != m.note {
         out.push(("C04", "note-num", format!("note_num() = {} expected {} (outstanding {:?}, priority {})", rx.note_num(), m.note, m.held, ["last", "high", "low"][m.prio as usize])));
     }
-    let ev = m.vel as f64 / 127.0;
+    // before the first note-on the velocity is whatever a fresh receiver reports (vel 0 = none yet)
+    let ev = if m.vel == 0 { defaults().velocity as f64 } else { m.vel as f64 / 127.0 };
     if !near(rx.velocity(), ev) {
         out.push(("C04", "velocity", format!("velocity() = {:?} expected {}/127", rx.velocity(), m.vel)));
     }
     let names = ["mod_wheel", "volume", "vcf_cutoff", "vcf_resonance", "portamento_time"];
     let got = [rx.mod_wheel(), rx.volume(), rx.vcf_cutoff(), rx.vcf_resonance(), rx.portamento_time()];
     for i in 0..5 {
-        let e = m.cc[i].map(|v| v as f64 / 127.0).unwrap_or(0.0);
+        let e = m.cc[i].map(|v| v as f64 / 127.0).unwrap_or(defaults().cc[i] as f64);
         if !near(got[i], e) || (m.cc[i] == Some(127) && got[i] != 1.0) || (m.cc[i] == Some(0) && got[i] != 0.0) {
             out.push(("C18", "controller-value", format!("{}() = {:?} expected {:?}/127", names[i], got[i], m.cc[i])));
         }
@@ -173,9 +209,9 @@ pub fn compare(rx: &MonoMidiReceiver, m: &Model, out: &mut Vec<Finding>) {
     if rx.sustain_enabled() != m.sustain {
         out.push(("C18", "switch", format!("sustain_enabled() = {} expected {}", rx.sustain_enabled(), m.sustain)));
     }
-    let eb = m.bend_value();
     let gb = rx.pitch_bend();
     let exact = matches!(m.bend, None | Some(8192) | Some(0) | Some(16383));
+    let eb = if exact { m.bend_value() } else { bend_table()[m.bend.unwrap() as usize] as f64 };
     if (exact && gb as f64 != eb) || !near(gb, eb) {
         out.push(("C18", "pitch-bend", format!("pitch_bend() = {:?} expected {} for 14-bit value {:?}", gb, eb, m.bend)));
     }
@@ -318,7 +354,8 @@ impl Machine for MidiM {
                     out.count("release_of_non_last_note");
                 }
                 if let MOp::Off(_) = op {
-                    self.send(&[0x80 | ch, n, 64]);
+                    // the release velocity carries no meaning: 64, 0, 127, 1 depending on the note number
+                    self.send(&[0x80 | ch, n, [64u8, 0, 127, 1][n as usize % 4]]);
                 } else {
                     self.send(&[0x90 | ch, n, 0]);
                 }
@@ -336,7 +373,8 @@ impl Machine for MidiM {
                 } else if self.m.falling {
                     out.count("all_notes_off_with_pending_falling_edge");
                 }
-                self.send(&[0xB0 | ch, 123, 0]);
+                // the data byte of All-Notes-Off carries no meaning either
+                self.send(&[0xB0 | ch, 123, [0u8, 64, 127][self.m.held.len() % 3]]);
                 self.m.all_off();
             }
             MOp::Foreign(n) => {
@@ -522,6 +560,17 @@ fn long_runs(ctx: &Ctx, rep: &mut Report, props: &[&'static str], with_polls: bo
             vec![MOp::On(60, 100), MOp::PollR, MOp::PollR, MOp::On(61, 100), MOp::PollR, MOp::Off(60), MOp::PollF, MOp::Off(61), MOp::PollF, MOp::PollF],
         ];
     }
+    // cycles during which keys stay down all the time (a drone under a trill / an arpeggio): the first cycle presses
+    // the drone keys, every later cycle starts with a note-off of a key that is not held (a no-op)
+    let drones: usize = cycles.len();
+    if with_polls {
+        cycles.push(vec![MOp::Off(1), MOp::On(61, 80), MOp::PollR, MOp::Off(61), MOp::PollF, MOp::PollR]);
+        cycles.push(vec![MOp::Off(1), MOp::On(61, 80), MOp::On(62, 80), MOp::PollR, MOp::On(63, 3), MOp::Off(62), MOp::PollR, MOp::Off(61), MOp::Off(63), MOp::PollF]);
+    } else {
+        cycles.push(vec![MOp::Off(1), MOp::On(61, 80), MOp::Off(61)]);
+        cycles.push(vec![MOp::Off(1), MOp::On(61, 80), MOp::On(62, 80), MOp::On(63, 3), MOp::Off(62), MOp::Off(61), MOp::Off(63)]);
+        cycles.push(vec![MOp::Off(1), MOp::On(61, 80), MOp::On(61, 81), MOp::Off(61), MOp::Prio(1), MOp::On(90, 9), MOp::Prio(2), MOp::Off(90), MOp::Prio(0)]);
+    }
     let cr = &cycles;
     let pv: Vec<&'static str> = props.to_vec();
     let pr = &pv;
@@ -529,13 +578,18 @@ fn long_runs(ctx: &Ctx, rep: &mut Report, props: &[&'static str], with_polls: bo
         for j in lo..hi {
             let mut m = MidiM::new(4, Alphabet { notes: vec![], vels: vec![], k: 32, modes: true, polls: true, ccs: vec![], bends: vec![], foreign: false, edge_note: None });
             let cyc = &cr[j as usize];
+            let drone: Vec<MOp> = if j as usize >= drones { vec![MOp::On(72, 100), MOp::On(50, 90)] } else { vec![] };
+            for op in &drone {
+                let mut out = StepOut::new();
+                m.apply(op, &mut out);
+            }
             'run: for n in 0..66_000u64 {
                 for op in cyc {
                     let mut out = StepOut::new();
                     let r = std::panic::catch_unwind(std::panic::AssertUnwindSafe(|| m.apply(op, &mut out)));
                     lc.count("long_run_operations", 1);
                     let ops_done = || -> Vec<String> {
-                        let mut v = Vec::new();
+                        let mut v: Vec<String> = drone.iter().map(MidiM::op_str).collect();
                         for _ in 0..=n {
                             v.extend(cyc.iter().map(MidiM::op_str));
                         }
@@ -666,7 +720,7 @@ pub fn c05(ctx: &Ctx) -> Report {
     // the same latches defined on the observed gate(), which stays meaningful when more keys are down than the
     // receiver remembers (here up to 36): retrigger mode switch, polls, a second note number at both ends
     {
-        let a = Alphabet { notes: vec![60], vels: vec![100], edge_note: Some(40), modes: false, ..polls(36) };
+        let a = Alphabet { notes: vec![60], vels: vec![100], edge_note: Some(40), modes: true, ..polls(36) };
         let m = MidiM::new(2, a.clone()).observed_edges();
         let r = explore(m, &ExploreCfg { max_depth: None, state_cap: 30_000_000, threads: ctx.threads, label: "edges relative to the observed gate, up to 36 outstanding note-ons".into() }, &mut rep, p);
         if !r.fixpoint && !r.cap_hit {
@@ -1150,6 +1204,53 @@ pub fn c06(ctx: &Ctx) -> Report {
         });
     }
     // the channel byte as constructed (new(ch) with ch > 15 is C20's business)
+    // system-exclusive payloads as an input space: after a controller and a held note, F0 <payload> F7 followed by
+    // more traffic, for every payload of up to 2 bytes over all 128 data values and every payload of 3..6 (thorough 7)
+    // bytes over the values universal SysEx messages are built from; the payload must be ignored whatever it says
+    {
+        let alpha: [u8; 9] = [0x00, 0x01, 0x02, 0x03, 0x04, 0x06, 0x7D, 0x7E, 0x7F];
+        let maxlen: u32 = if thorough { 7 } else { 6 };
+        let mut total: u64 = 1 + 128 + 128 * 128 + if thorough { 128 * 128 * 128 } else { 0 };
+        let short = total;
+        for l in 3..=maxlen {
+            total += 9u64.pow(l);
+        }
+        par_ranges(ctx, &mut rep, total, 256, |_, lo, hi, lc| {
+            for i in lo..hi {
+                let mut payload: Vec<u8> = Vec::new();
+                if i < short {
+                    let mut x = i;
+                    let len = if x == 0 { 0 } else if x < 1 + 128 { x -= 1; 1 } else if x < 1 + 128 + 128 * 128 { x -= 1 + 128; 2 } else { x -= 1 + 128 + 128 * 128; 3 };
+                    for _ in 0..len {
+                        payload.push((x % 128) as u8);
+                        x /= 128;
+                    }
+                } else {
+                    let mut x = i - short;
+                    let mut len = 3u32;
+                    while x >= 9u64.pow(len) {
+                        x -= 9u64.pow(len);
+                        len += 1;
+                    }
+                    for _ in 0..len {
+                        payload.push(alpha[(x % 9) as usize]);
+                        x /= 9;
+                    }
+                }
+                let ch = (i % 16) as u8;
+                let mut stream: Vec<u8> = vec![0xB0 | ch, 7, 100, 0x90 | ch, 60, 100, 0xF0];
+                stream.extend(&payload);
+                // terminated by F7, or (every fourth) by the next status byte
+                if i % 4 != 3 {
+                    stream.push(0xF7);
+                }
+                stream.extend([0x90 | ch, 62, 90, 0xB0 | ch, 1, 64, 0x80 | ch, 60, 0]);
+                run_stream(ch, &stream, lc);
+                lc.count("sysex_payload_streams", 1);
+            }
+        });
+        rep.require_nonzero("sysex_payload_streams");
+    }
     let streams = rep.counters.get("streams").copied().unwrap_or(0);
     let bytes = rep.counters.get("bytes_fed").copied().unwrap_or(0);
     rep.evaluations += streams;
@@ -1299,11 +1400,32 @@ pub fn c18(ctx: &Ctx) -> Report {
                         fnd.push(("C18", "foreign-channel-controller", format!("controller {} value {} on channel {} changed an output of a receiver listening on {}", num, val, fch, ch)));
                         ops.push(format!("foreign_cc:{}:{}", num, val));
                     }
+                    let mut twin = rx.verif_clone();
                     for b in [0xB0 | ch, num, val] {
                         rx.parse(b);
                     }
                     m.cc(num, val);
                     ops.push(format!("cc:{}:{}", num, val));
+                    // no controller other than 123 may change how notes are handled afterwards (priority, retrigger
+                    // mode, edge latches, the list of held notes): the receiver and a copy that never saw the
+                    // controller are fed the same note traffic and polled alike
+                    if num != 123 && num != 121 && matches!(val, 0 | 1 | 63 | 64 | 127) {
+                        let mut rx2 = rx.verif_clone();
+                        let probe: [(u8, u8, u8); 11] = [(0x90, 60, 100), (0x90, 64, 90), (0x90, 62, 80), (0x80, 62, 0), (0x80, 64, 64), (0x90, 67, 1), (0x80, 60, 0), (0x90, 67, 0), (0x90, 50, 5), (0xB0, 123, 0), (0x90, 51, 6)];
+                        for (k, (st, d1, d2)) in probe.iter().enumerate() {
+                            for b in [st | ch, *d1, *d2] {
+                                rx2.parse(b);
+                                twin.parse(b);
+                            }
+                            let a = (rx2.gate(), rx2.note_num(), rx2.velocity().to_bits(), rx2.rising_gate(), rx2.falling_gate());
+                            let b = (twin.gate(), twin.note_num(), twin.velocity().to_bits(), twin.rising_gate(), twin.falling_gate());
+                            lc.count("note_probes_after_a_controller", 1);
+                            if a != b {
+                                fnd.push(("C18", "controller-changes-note-handling", format!("after this controller, note message #{} of the probe {:?} gives (gate, note, velocity bits, rising, falling) = {:?}; a receiver that never saw the controller gives {:?}", k + 1, &probe[..=k], a, b)));
+                                break;
+                            }
+                        }
+                    }
                     lc.count("controller_messages", 1);
                     if matches!(num, 1 | 7 | 71 | 74 | 5 | 65 | 64 | 121) {
                         lc.count("routed_controller_messages", 1);
@@ -1323,7 +1445,7 @@ pub fn c18(ctx: &Ctx) -> Report {
                     }
                     for (p, c, d) in fnd.drain(..) {
                         if p == "C18" || num != 123 {
-                            let class = if p != "C18" { "controller-touches-notes" } else if !matches!(num, 1 | 7 | 71 | 74 | 5 | 65 | 64 | 121) { "unrouted-controller-has-effect" } else { c };
+                            let class = if p != "C18" { "controller-touches-notes" } else if c == "controller-changes-note-handling" { c } else if !matches!(num, 1 | 7 | 71 | 74 | 5 | 65 | 64 | 121) { "unrouted-controller-has-effect" } else { c };
                             lc.violation(Violation { prop: "C18", class: class.into(), detail: format!("controller {} value {}: {}", num, val, d), machine: "midi", config: json!({"channel": ch}), ops: ops.clone() });
                         }
                     }
@@ -1427,7 +1549,7 @@ pub fn c18(ctx: &Ctx) -> Report {
     enumerate_sequences(&MidiM::new(2, small), if ctx.tier.is_thorough() { 5 } else { 4 }, ctx, &mut rep, &["C18"], "all controller message sequences, no state matching");
     // every short sequence of controller messages (all 128 numbers), each followed by pitch-bend and note probes
     {
-        let mut ops: Vec<(u8, u8)> = (0..128u8).map(|c| (c, 0u8)).collect();
+        let mut ops: Vec<(u8, u8)> = (0..128u8).flat_map(|c| [(c, 0u8), (c, 64)]).collect();
         for c in CC_FAMILY {
             ops.push((c, 12));
             ops.push((c, 127));
@@ -1444,7 +1566,9 @@ pub fn c18(ctx: &Ctx) -> Report {
             let fam: Vec<(u8, u8)> = CC_FAMILY.iter().flat_map(|c| [(*c, 0u8), (*c, 12), (*c, 127)]).collect();
             cc_sequences(ctx, &mut rep, 9, &fam, 4, &probes, &["C18"], "special controller numbers x {0,12,127}, sequences of 4, then probes");
         } else {
-            cc_sequences(ctx, &mut rep, 3, &ops, 3, &probes, &["C18"], "all controller numbers (value 0) + special numbers x {12,127}, sequences of 3, then probes");
+            cc_sequences(ctx, &mut rep, 3, &ops, 2, &probes, &["C18"], "all controller numbers x {0,64} + special numbers x {12,127}, sequences of 2, then probes");
+            let zero: Vec<(u8, u8)> = ops.iter().cloned().filter(|(c, v)| *v == 0 || CC_FAMILY.contains(c)).collect();
+            cc_sequences(ctx, &mut rep, 3, &zero, 3, &probes, &["C18"], "all controller numbers (value 0) + special numbers x {12,127}, sequences of 3, then probes");
         }
     }
     rep.nontrivial = rep.counters.get("routed_controller_messages").copied().unwrap_or(0) + rep.counters.get("pitch_bend_messages").copied().unwrap_or(0);
